@@ -845,6 +845,13 @@ class SVal:
                 return env[k]
             b = ev(e.value)
             if b[0] == 'global' and not b[1].startswith('?'):
+                # a table of the class read through the class name inside one of its own methods (`MODPDH._group_dict[g]`) is the
+                # table the code base reads through the receiver (`self._group_dict[g]`): one term for both
+                cls_ = getattr(self.fi, 'cls', None)
+                if cls_ is not None and b[1] == cls_.qual and getattr(self.fi, 'self_name', None) and not getattr(self.fi, 'is_staticmethod', False):
+                    v_ = cls_.lookup_attr(e.attr) if hasattr(cls_, 'lookup_attr') else None
+                    if isinstance(v_, (ast.Dict, ast.Tuple, ast.List, ast.Set)):
+                        return mk_attr(('param', self.fi.self_name), e.attr)
                 return ('global', b[1] + '.' + e.attr)
             return mk_attr(b, e.attr)
         if isinstance(e, ast.BinOp):
